@@ -1,7 +1,7 @@
 ------------------------------ MODULE MCDoh ------------------------------
 EXTENDS Doh, Json
 MCStatuses == {200, 204, 400, 403, 404, 406, 415, 429, 500, 503}
-MCFramings == {"exact", "chunked", "closedelim", "short", "long", "zero", "over", "huge", "badlen", "reset"}
+MCFramings == {"exact", "chunked", "closedelim", "short", "long", "zero", "over", "huge", "badlen", "reset", "endless"}
 MCBodies == {"answer", "padded", "big", "garbage", "truncated", "empty"}
 Emit == Done => PrintT(<<"CASE", ToJson([st |-> st, fr |-> fr, bd |-> bd, res |-> res, sent |-> sent, ctx |-> ctx, retry |-> Retryable(st, fr), ok |-> Admissible(st, fr, bd)])>>)
 =============================================================================
